@@ -11,6 +11,7 @@ mod c03;
 mod c06;
 mod c08;
 mod c17;
+#[cfg(feature = "legacy-console")]
 mod c18;
 mod common;
 mod envsim;
